@@ -312,7 +312,10 @@ class Driver(SystemWideDevice):
         if self.config['pulse_with_timed_enable']:
             self.timed_enable(pulse_ms=pulse_ms, pulse_power=pulse_power)
             return
-        if 0 < pulse_ms <= self.platform.features['max_pulse']:
+        if pulse_ms == 0:
+            # nothing to pulse: in particular do not switch the coil on and hold it until a 0ms timer fires
+            self.info_log("Not pulsing Driver for 0ms")
+        elif 0 < pulse_ms <= self.platform.features['max_pulse']:
             self.info_log("Pulsing Driver for %sms (%s pulse_power)", pulse_ms, pulse_power)
             self.hw_driver.pulse(PulseSettings(power=pulse_power, duration=pulse_ms))
         else:
